@@ -219,6 +219,15 @@ func (g *patGen) pattern() *Pat {
 		}
 		p.Top = append(p.Top, a)
 	}
+	if g.rng.Chance(12) {
+		// the configured name brings its own anchors around all of it: ^a|b$
+		first, last := p.Top[0], p.Top[len(p.Top)-1]
+		p.Top[0] = &rnode{kind: "seq", kids: append([]*rnode{{kind: "bol"}}, first.kids...)}
+		if len(p.Top) == 1 {
+			last = p.Top[0]
+		}
+		p.Top[len(p.Top)-1] = &rnode{kind: "seq", kids: append(append([]*rnode{}, last.kids...), &rnode{kind: "eol"})}
+	}
 	return p
 }
 
